@@ -34,10 +34,12 @@ type world struct {
 	log     []string
 	consume map[string]string // node -> "capture" | "target" | "bubble" | ""
 	cmdOn   map[string]vxfw.Command
-	nodes   map[string]vxfw.Widget
-	draws   int
-	lastN   int
-	lastKey int
+	// delegate: a widget that answers FocusIn by handing the focus on to another widget
+	delegate map[string]string
+	nodes    map[string]vxfw.Widget
+	draws    int
+	lastN    int
+	lastKey  int
 	// consumeNotes: every node answers MouseEnter / MouseLeave / FocusIn / FocusOut with
 	// ConsumeEventCmd (as vxfw/button does): a consume outside a dispatch must not leak into the next event
 	consumeNotes bool
@@ -125,6 +127,11 @@ func (n *node) handle(ev vaxis.Event, phase string) (vxfw.Command, error) {
 	if m, ok := ev.(marked); ok {
 		if cmd, ok := n.wd.cmdOn[n.spec.name+":"+m.id]; ok {
 			return cmd, nil
+		}
+	}
+	if _, ok := ev.(vaxis.FocusIn); ok {
+		if to, ok := n.wd.delegate[n.spec.name]; ok {
+			return vxfw.FocusWidgetCmd(n.wd.nodes[to]), nil
 		}
 	}
 	if n.wd.consumeNotes {
@@ -699,6 +706,53 @@ func commandSweep() {
 				rig.Stop()
 			}
 		}
+		// delegation: the newly focused widget hands the focus on from its FocusIn handler (a container
+		// passing it to its input field): two focus changes, each with one focus-out and one focus-in, and
+		// the next event goes to the final widget
+		for _, from := range ns {
+			for _, via := range ns {
+				for _, to := range ns {
+					if from == via || via == to {
+						continue
+					}
+					wd, rig := startRig(t, map[string]bool{})
+					wd.focus(from)
+					wd.delegate = map[string]string{via: to}
+					wd.log = nil
+					rig.Post(setFocus{via})
+					r.Count("command_cases", 1)
+					var notes []string
+					for _, l := range wd.log {
+						if strings.HasSuffix(l, ":focus-out:target") || strings.HasSuffix(l, ":focus-in:target") {
+							notes = append(notes, strings.TrimSuffix(l, ":target"))
+						}
+					}
+					want := []string{from + ":focus-out", via + ":focus-in", via + ":focus-out", to + ":focus-in"}
+					bad := ""
+					if strings.Join(notes, " ") != strings.Join(want, " ") {
+						bad = fmt.Sprintf("focus notifications %v, want %v", notes, want)
+					} else {
+						wd.log = nil
+						rig.Post(custom{})
+						got := ""
+						for _, l := range wd.log {
+							if strings.HasSuffix(l, ":custom:target") {
+								got = strings.TrimSuffix(l, ":custom:target")
+							}
+						}
+						if got != to {
+							bad = fmt.Sprintf("the next event had %q as its target, want %q", got, to)
+						}
+					}
+					if bad != "" {
+						r.Violation("C15|focus-delegation", 0, detail{Tree: t.name, Setup: "focus " + from + "; " + via + " answers FocusIn with FocusWidgetCmd(" + to + ")", Event: "FocusWidgetCmd(" + via + ")", Got: wd.log, Why: bad})
+					} else {
+						r.Distinct(explore.Hash("delegate", t.name, from, via, to))
+					}
+					rig.Stop()
+				}
+			}
+		}
 		// commands: each takes effect exactly once
 		type cmdCase struct {
 			name string
@@ -796,7 +850,7 @@ func main() {
 	n := r.Get("routing_cases") + r.Get("hover_cases") + r.Get("command_cases") + r.Get("notification_cases") + r.Get("relayout_cases")
 	r.Finish(explore.Coverage{
 		States: -1, Transitions: n, Traces: n, Evaluations: n,
-		Rule:       "8 widget trees (1-4 nodes, depth <= 3, disjoint and overlapping siblings with both z orders) on a 6x3 screen with a 5x3 root; routing: every capturer mask x every focus position x every assignment of a consuming phase to at most two nodes x {key (injected as terminal input), custom event}, and a press at every screen cell, each compared with a reference router (capture root-down, target, bubble up, stop at the first consumer; the target's own capture handler left open); hover: every sequence of <= n steps over {pointer motion at 6 points incl. outside the root, terminal focus out/in, frame} followed by a focus-out: per widget enter/leave must alternate starting with enter and end closed; notifications: with every widget consuming MouseEnter/MouseLeave/FocusIn/FocusOut (delivered outside the three phases), after each of 6 notification-raising steps the next key (arriving in the same read) is routed in full, for every capturer mask and focus position; re-layout: a focused leaf drawn alternately under two parents, a key after each frame follows the new ancestor chain, for every capturer mask; focus: every (old, new) pair gets exactly one focus-out and one focus-in; commands: Redraw, Refresh, Quit, batches, nested batches each take effect exactly once. All through the real App.Run on a fake console, stepped with virtual frame ticks. distinct = cases that passed",
+		Rule:       "8 widget trees (1-4 nodes, depth <= 3, disjoint and overlapping siblings with both z orders) on a 6x3 screen with a 5x3 root; routing: every capturer mask x every focus position x every assignment of a consuming phase to at most two nodes x {key (injected as terminal input), custom event}, and a press at every screen cell, each compared with a reference router (capture root-down, target, bubble up, stop at the first consumer; the target's own capture handler left open); hover: every sequence of <= n steps over {pointer motion at 6 points incl. outside the root, terminal focus out/in, frame} followed by a focus-out: per widget enter/leave must alternate starting with enter and end closed; notifications: with every widget consuming MouseEnter/MouseLeave/FocusIn/FocusOut (delivered outside the three phases), after each of 6 notification-raising steps the next key (arriving in the same read) is routed in full, for every capturer mask and focus position; re-layout: a focused leaf drawn alternately under two parents, a key after each frame follows the new ancestor chain, for every capturer mask; focus: every (old, new) pair gets exactly one focus-out and one focus-in; delegation: for every (old, via, new) triple with via answering FocusIn by focusing new, the four notifications in order and the next event targeted at new; commands: Redraw, Refresh, Quit, batches, nested batches each take effect exactly once. All through the real App.Run on a fake console, stepped with virtual frame ticks. distinct = cases that passed",
 		Exhaustive: true,
 		Bounds:     map[string]any{"hover_sequence_len": r.Pick(3, 4)},
 		Assumptions: []string{"whether the focused/target widget's own CaptureEvent runs is not fixed by the property and is accepted either way",
